@@ -672,8 +672,12 @@ var CanonOpaque = map[string]bool{}
 // inlinable: a module function consisting of one block whose instructions are pure value
 // computations followed by a return (no stores, no calls to unknown effects are checked here:
 // calls inside are rendered as calls).
+var transparentStd = map[string]bool{"(*net/url.URL).IsAbs": true}
+
 func (c *Canon) inlinable(fn *ssa.Function) bool {
-	if !IsModPkg(FnPkgPath(fn)) || len(fn.Blocks) != 1 {
+	// module functions, and a few trivial accessors of the standard library whose body says more
+	// than their name ((*url.URL).IsAbs is `u.Scheme != ""`)
+	if !(IsModPkg(FnPkgPath(fn)) || transparentStd[fn.String()]) || len(fn.Blocks) != 1 {
 		return false
 	}
 	if CanonOpaque[fn.String()] {
